@@ -126,7 +126,8 @@ const (
 	kRelBuckets = "relbuckets" // Cleaner.ReleaseBuckets
 	kGC         = "gc"         // the real loop's garbageCollection: CleanEmptyGenerations; ReleaseBuckets
 	kRelease    = "release"    // Cache.Release
-	kNew        = "new"        // cache.NewCache on the shared cleaner
+	kNew        = "new"        // cache.NewCache on the shared cleaner (Slow: registered through a slowBucket)
+	kRaceNew    = "racenew"    // ReleaseBuckets while another goroutine registers a new cache (see slowBucket)
 )
 
 type Op struct {
@@ -135,6 +136,7 @@ type Op struct {
 	Key    uint32 `json:"key,omitempty"`
 	Size   int    `json:"size,omitempty"`   // refMemSize reported by the loader; for bulk: number of keys
 	During []Op   `json:"during,omitempty"` // executed inside the loader, i.e. while the load is in flight
+	Slow   bool   `json:"slow,omitempty"`   // new: the cache answers the cleaner's Released() slowly (slowBucket)
 }
 
 type Case struct {
@@ -260,7 +262,8 @@ var topKinds = []string{
 	kRotate, kRotate, kRotate, kCleanup, kCleanup, kCleanup, kPass, kPass, kPass, kPass,
 	kCleanEmpty, kCleanEmpty, kGC, kGC,
 	kRelease, kRelease, kRelease, kRelease, kRelease, kRelBuckets, kRelBuckets, kRelBuckets,
-	kNew, kNew, kNew,
+	kNew, kNew, kNew, kNew,
+	kRaceNew, kRaceNew,
 }
 
 // few keys, skewed, so that lookups of one key repeat (hits, reloads after failures/cleaning)
@@ -346,11 +349,14 @@ func genOp(t *rapid.T, g *genState, outer *Op) (Op, bool) {
 		}
 		g.released[ci] = true
 		return Op{Kind: kind, Cache: ci}, true
-	case kind == kNew:
+	case kind == kNew || kind == kRaceNew:
 		if len(alive) >= maxAlive || len(g.released) >= maxCreated {
 			return Op{}, false
 		}
 		g.released = append(g.released, false)
+		if kind == kNew {
+			return Op{Kind: kind, Slow: rapid.IntRange(0, 2).Draw(t, "slow") == 2}, true
+		}
 		return Op{Kind: kind}, true
 	default:
 		if outer != nil && (kind == kCleanup || kind == kPass) {
@@ -401,6 +407,7 @@ type kstate struct {
 
 type mcache struct {
 	c        *cache.Cache[val]
+	id       any // what the cleaner holds for this cache: the cache itself or its slowBucket
 	metrics  *cache.Metrics
 	released bool
 	keys     map[uint32]*kstate
@@ -412,7 +419,8 @@ type sim struct {
 	overhead uint64
 	caches   []*mcache
 	ver      uint64
-	fl       *flight // the top-level load in flight, if any
+	fl       *flight  // the top-level load in flight, if any
+	arm      *raceNew // set while a racenew step is running
 	labels   map[string]bool
 	evals    int
 
@@ -423,9 +431,72 @@ type sim struct {
 
 func (s *sim) label(l string) { s.labels[l] = true }
 
-func (s *sim) newCache() {
+func (s *sim) newCache(slow bool) {
 	mt := newMetrics()
-	s.caches = append(s.caches, &mcache{c: cache.NewCache[val](s.cl, mt), metrics: mt, keys: map[uint32]*kstate{}})
+	if !slow {
+		c := cache.NewCache[val](s.cl, mt)
+		s.caches = append(s.caches, &mcache{c: c, id: c, metrics: mt, keys: map[uint32]*kstate{}})
+		return
+	}
+	// exactly what NewCache does, with the slowBucket in the cleaner's list
+	c := cache.NewCache[val](nil, mt)
+	b := &slowBucket{c: c, onReleased: s.whileScanning}
+	s.cl.AddBucket(b)
+	s.caches = append(s.caches, &mcache{c: c, id: b, metrics: mt, keys: map[uint32]*kstate{}})
+	s.label("new:slow-bucket")
+}
+
+// slowBucket is a real cache as the cleaner sees it (every method delegates), except that
+// answering Released() may take a while - as it does when the cache's mutex is contended.
+// The time is used to let ANOTHER goroutine do something, which makes "a cache is registered
+// while ReleaseBuckets is scanning" a deterministic step instead of a lucky schedule.
+type slowBucket struct {
+	c          *cache.Cache[val]
+	onReleased func()
+}
+
+func (b *slowBucket) SetGeneration(g *cache.Generation) { b.c.SetGeneration(g) }
+func (b *slowBucket) Cleanup() uint64                   { return b.c.Cleanup() }
+func (b *slowBucket) Reset(g *cache.Generation)         { b.c.Reset(g) }
+func (b *slowBucket) Released() bool {
+	r := b.c.Released()
+	if b.onReleased != nil {
+		b.onReleased()
+	}
+	return r
+}
+
+// registration that is armed to happen, in a second goroutine, while ReleaseBuckets scans
+type raceNew struct {
+	fired   bool
+	done    chan struct{}
+	c       *cache.Cache[val]
+	metrics *cache.Metrics
+}
+
+// whileScanning runs inside the cleaner's call of Released() on a slowBucket (cleaner
+// goroutine = the simulation's goroutine).  The first time after racenew armed it, a second
+// goroutine registers a new cache; the scan waits for it for a bounded number of scheduler
+// yields - bounded, because an implementation that scans under the cleaner's lock makes the
+// registration wait for the scan, which is just as correct.
+func (s *sim) whileScanning() {
+	a := s.arm
+	if a == nil || a.fired {
+		return
+	}
+	a.fired = true
+	go func() {
+		defer close(a.done)
+		a.c = cache.NewCache[val](s.cl, a.metrics)
+	}()
+	for i := 0; i < 500; i++ {
+		select {
+		case <-a.done:
+			return
+		default:
+			runtime.Gosched()
+		}
+	}
 }
 
 type loadErr struct{ ver uint64 }
@@ -838,7 +909,7 @@ func (s *sim) check(where string, afterTopCleanup, afterRelBuckets bool) error {
 	s.evals++
 	mine := 0
 	for i, m := range s.caches {
-		n := held[any(m.c)]
+		n := held[m.id]
 		mine += n
 		if !m.released && n == 0 {
 			return evid.Failf("live-cache-dropped", "after %s: cache %d is not released but the cleaner no longer manages it (cleaner holds %s)", where, i, s.describeBuckets(bs))
@@ -852,7 +923,7 @@ func (s *sim) check(where string, afterTopCleanup, afterRelBuckets bool) error {
 	}
 	if afterRelBuckets {
 		for i, m := range s.caches {
-			if m.released && held[any(m.c)] > 0 {
+			if m.released && held[m.id] > 0 {
 				return evid.Failf("released-bucket-retained", "after %s: cache %d was released, yet ReleaseBuckets left it in the cleaner (cleaner holds %s)", where, i, s.describeBuckets(bs))
 			}
 		}
@@ -892,7 +963,7 @@ func (s *sim) describeBuckets(bs []any) string {
 	for _, b := range bs {
 		name := "?"
 		for i, m := range s.caches {
-			if any(m.c) == b {
+			if m.id == b {
 				name = fmt.Sprintf("%d", i)
 				if m.released {
 					name += "(released)"
@@ -911,7 +982,7 @@ func (s *sim) releaseShape() {
 	var pos []int
 	for p, b := range bs {
 		for _, m := range s.caches {
-			if any(m.c) == b && m.released {
+			if m.id == b && m.released {
 				pos = append(pos, p)
 			}
 		}
@@ -1013,8 +1084,30 @@ func (s *sim) exec(op Op, depth int) error {
 			s.skipped++
 			return nil
 		}
-		s.newCache()
+		s.newCache(op.Slow)
 		s.label("new")
+	case kRaceNew:
+		if len(s.caches) >= 64 {
+			s.skipped++
+			return nil
+		}
+		// the clean loop's ReleaseBuckets and, concurrently, a fraction registering its cache
+		a := &raceNew{done: make(chan struct{}), metrics: newMetrics()}
+		s.arm = a
+		s.releaseShape()
+		s.cl.ReleaseBuckets()
+		s.arm = nil
+		relBuckets = true
+		if a.fired {
+			<-a.done
+			s.label("racenew:registered-during-the-scan")
+		} else {
+			// no slow bucket in the list: the registration simply follows
+			a.c = cache.NewCache[val](s.cl, a.metrics)
+			relBuckets = false
+			s.label("racenew:registered-after")
+		}
+		s.caches = append(s.caches, &mcache{c: a.c, id: a.c, metrics: a.metrics, keys: map[uint32]*kstate{}})
 	default:
 		s.skipped++
 		return nil
@@ -1038,7 +1131,7 @@ func runCaseBody(c Case) (evid.Result, error) {
 		n0 = 1
 	}
 	for i := 0; i < n0; i++ {
-		s.newCache()
+		s.newCache(false)
 	}
 	if err := s.check("creation", false, false); err != nil {
 		return res, err
